@@ -870,10 +870,19 @@ func runCheck(o *Options) (int, *Evidence) {
 		if ob.Kind == "ownership" {
 			onBase = true // an operation on a watched channel moved into a goroutine without contract: decided by construction
 		}
-		if !onBase && (ob.Status == "failed-unknown" || (ob.Status == "failed-sat" && ob.Kind != "safety")) {
-			// unknown: nothing is known. sat on an obligation the unchanged tree did not have: the
-			// model may be a state no run reaches (a loop or callee whose contract moved away with
-			// the code), so it is not a counterexample to the property either
+		weakSat := false
+		if ob.Status == "failed-sat" {
+			weakSat = true
+			for _, j := range ob.Queries {
+				if j.res.Status == "sat" && !j.q.Weak {
+					weakSat = false
+				}
+			}
+		}
+		if !onBase && (ob.Status == "failed-unknown" || weakSat) {
+			// unknown: nothing is known. sat on an obligation the unchanged tree did not have, on
+			// a path through the head of a loop without invariants: the model is a state after an
+			// arbitrary havoc, not one a run reaches (the invariants moved away with the code)
 			undec = append(undec, "UNDISCHARGED "+n+" (not on the baseline list; "+ob.Status+")")
 			continue
 		}
